@@ -322,3 +322,68 @@ Definition run_v2v_affine (g h : geom) : val :=
   let T := v2v_aff (geom_aff g) (geom_aff h) in VL [vvec (f_c0 T); vvec (f_c1 T); vvec (f_c2 T); vvec (f_t T)].
 Definition run_ref2idx (h : geom) (round check : bool) (pts : list vec3) : val :=
   vres (fun l => VL (map vvec l)) (ref2idx (geom_aff h) (g_shape h) round check pts).
+
+(* ---- match_geometry with the pad options of Volume.pad (mode, constant_value) ---------------------- *)
+(* the same pipeline as match_geometry, returning the permutation and the per-axis (size, first, step) *)
+Definition match_rs (tol : Q) (g h : geom) : res (t3 ax * t3 axres) :=
+  if for_conflict (g_for g) (g_for h) then Err RT
+  else if negb (g_cs g =? g_cs h) then Err RT
+  else
+  bind (steps_of tol g h) (fun ps =>
+  let perm := fst ps in
+  let steps := snd ps in
+  if negb (is_perm (p0 perm) (p1 perm) (p2 perm)) then Err VE
+  else
+  bind (plans_of tol g h perm steps) (fun q =>
+  bind (results_of g perm q) (fun rs => Ok (perm, rs)))).
+
+Inductive padmode : Type := PConst | PEdge | PMin | PMax | PMean | PMedian.
+Definition nvox (s : t3 Z) : Z := p0 s * p1 s * p2 s.
+(* value written into padded voxels; the source array holds the labels 1..N (N = number of voxels), so its
+   minimum is 1, its maximum N and both its mean and its median (N+1)/2 *)
+Definition pad_value (mode : padmode) (src_shape : t3 Z) (cval : Q) : Q :=
+  match mode with
+  | PConst => cval
+  | PEdge => 0
+  | PMin => 1
+  | PMax => inject_Z (nvox src_shape)
+  | PMean | PMedian => (inject_Z (nvox src_shape) + 1) / 2
+  end.
+(* numpy.pad(mode='edge'): a coordinate outside the source takes the nearest source voxel along that axis *)
+Definition clampc (n c : Z) : Z := Z.max 0 (Z.min (n - 1) c).
+Definition cell (mode : padmode) (n c : Z) : option Z :=
+  if (0 <=? c) && (c <? n) then Some c
+  else match mode with PEdge => Some (clampc n c) | _ => None end.
+Definition axis_map_mode (mode : padmode) (n : Z) (r : axres) : list (option Z) :=
+  map (fun k => cell mode n (r_first r + k * r_step r)) (zrange (r_size r)).
+Definition label_q (src_shape : t3 Z) (perm : t3 ax) (pv : Q) (c0 c1 c2 : option Z) : Q :=
+  match c0, c1, c2 with
+  | Some a, Some b, Some c =>
+      let x := place perm a b c in
+      inject_Z (1 + (p0 x * p1 src_shape + p1 x) * p2 src_shape + p2 x)
+  | _, _, _ => pv
+  end.
+Definition voxels_mode (mode : padmode) (cval : Q) (g : geom) (perm : t3 ax) (rs : t3 axres) : list Q :=
+  let n d := sel (g_shape g) (sel perm d) in
+  let pv := pad_value mode (g_shape g) cval in
+  flat_map (fun c0 => flat_map (fun c1 => map (fun c2 => label_q (g_shape g) perm pv c0 c1 c2)
+                                              (axis_map_mode mode (n X2) (p2 rs)))
+                               (axis_map_mode mode (n X1) (p1 rs)))
+           (axis_map_mode mode (n X0) (p0 rs)).
+
+(* result geometry, voxel values, and the flag "result.geometry_equal(target, tol=T)" observed on the
+   implementation (T is chosen by the harness above the bound of C09_match_sound_geometry_equal) *)
+Definition run_match_mode (tol : Q) (mode : padmode) (cval : Q) (g h : geom) : val :=
+  vres (fun pr => VL [vageom (m_geom (assemble g (fst pr) (snd pr)));
+                      vq_list (voxels_mode mode cval g (fst pr) (snd pr)); VL [VB true]])
+       (match_rs tol g h).
+
+(* ---- map_indices_to_reference and the two routes from source indices to target indices ---------------- *)
+Definition idx2ref (A : aff) (pts : list vec3) : list vec3 := map (phys A) pts.
+Definition run_idx2ref (g : geom) (pts : list vec3) : val := VL (map vvec (idx2ref (geom_aff g) pts)).
+(* [ VolumeToVolumeTransformer(g, h, round, check)(pts) ;
+     h.map_reference_to_indices(g.map_indices_to_reference(pts), round, check) ] *)
+Definition run_via_phys (g h : geom) (round check : bool) (pts : list vec3) : val :=
+  VL [vres (fun l => VL (map vvec l)) (v2v (geom_aff g) (geom_aff h) (g_shape h) round check pts);
+      vres (fun l => VL (map vvec l))
+           (ref2idx (geom_aff h) (g_shape h) round check (idx2ref (geom_aff g) pts))].
